@@ -24,6 +24,9 @@ type Case struct {
 	Structs []*cdm.Type
 	Funcs   []*cdm.Func
 	Body    []cdm.Stmt
+	// ArgSets: if non-nil the case is compiled alone once per level and executed once per argument
+	// vector (the program reads its inputs with cdm.Arg, invisible to the optimiser)
+	ArgSets [][]string
 	// filled by the runner
 	exp   cdm.Outcome
 	index int
@@ -71,6 +74,9 @@ func program(cs []*Case, tagged bool) *cdm.Program {
 			}
 		}
 		p.Funcs = append(p.Funcs, c.Funcs...)
+		if c.ArgSets != nil {
+			p.UsesArgs = true
+		}
 		if tagged {
 			p.Main = append(p.Main, Tag(c.index))
 		}
@@ -86,8 +92,14 @@ func Run(c *ev.Ctx, cases []*Case, o Opts) Stats {
 		o.BatchSize = 40
 	}
 	var normal, solo []*Case
+	var multi []*Case
 	for i, cs := range cases {
 		cs.index = i
+		if cs.ArgSets != nil {
+			st.Cases += int64(len(cs.ArgSets))
+			multi = append(multi, cs)
+			continue
+		}
 		out, un := program([]*Case{cs}, false).Run()
 		st.Cases++
 		if un != nil {
@@ -130,6 +142,13 @@ func Run(c *ev.Ctx, cases []*Case, o Opts) Stats {
 		c.Violation(key, fmt.Sprintf("%s\n-O%d: %s", cs.Desc, lvl, what), map[string]string{
 			"main.ddp": src, "expected_stdout.txt": exp.Stdout, "expected_exit.txt": fmt.Sprint(exp.Exit), "got.txt": got, "level.txt": fmt.Sprint(lvl)})
 	}
+	par.Each(multi, 0, func(_ int, cs *Case) {
+		if c.Expired() {
+			c.Capped(o.Family + ": deadline reached, remaining argument-driven cases skipped")
+			return
+		}
+		runMulti(c, cs, o, &st, fail)
+	})
 	par.Each(jobs, 0, func(_ int, j job) {
 		if c.Expired() {
 			c.Capped(o.Family + ": deadline reached, remaining batches skipped")
@@ -177,6 +196,79 @@ func Run(c *ev.Ctx, cases []*Case, o Opts) Stats {
 		}
 	})
 	return st
+}
+
+// runMulti: one executable per level, one execution per argument vector.
+func runMulti(c *ev.Ctx, cs *Case, o Opts, st *Stats, fail func(cs *Case, lvl uint, what, src string, exp cdm.Outcome, got string)) {
+	prog := program([]*Case{cs}, false)
+	src := prog.Source()
+	dir := rx.Scratch("m")
+	defer os.RemoveAll(dir)
+	rx.WriteFiles(dir, map[string]string{"main.ddp": src})
+	atomic.AddInt64(&st.Programs, 1)
+	type expT struct {
+		args []string
+		out  cdm.Outcome
+	}
+	var exps []expT
+	for _, a := range cs.ArgSets {
+		prog.Args = a
+		out, un := prog.Run()
+		if un != nil {
+			atomic.AddInt64(&st.Unspecified, 1)
+			c.Add("excluded_unspecified", 1)
+			continue
+		}
+		exps = append(exps, expT{a, out})
+	}
+	for _, lvl := range o.Levels {
+		b := rx.Build(dir, "main.ddp", rx.BuildOpts{Opt: lvl, Asan: o.Asan})
+		atomic.AddInt64(&st.Builds, 1)
+		if !b.OK {
+			diag := ""
+			for _, d := range b.Resp.Diags {
+				diag += d.String() + "\n"
+			}
+			fail(cs, lvl, "compilation failed at stage "+b.Stage+": "+firstN(b.Log, 600)+"\n"+firstN(diag, 600), src, cdm.Outcome{}, b.Log)
+			return
+		}
+		for _, e := range exps {
+			check := func() (string, string) {
+				r := rx.Run(b.Exe, rx.RunOpts{Args: e.args, NoLimit: o.Asan})
+				atomic.AddInt64(&st.Runs, 1)
+				ok := r.Stdout == e.out.Stdout && r.Exit == e.out.Exit && r.Signal == "" && !r.TimedOut && !r.Truncated
+				if e.out.RtErr && !strings.Contains(r.Stderr, "Laufzeitfehler") {
+					ok = false
+				}
+				if strings.Contains(r.Stderr, "Segmentation fault") || strings.Contains(r.Stderr, "AddressSanitizer") {
+					ok = false
+				}
+				if ok && o.Extra != nil {
+					if w := o.Extra(r); w != "" {
+						return w, r.Stdout + "\n--- stderr ---\n" + r.Stderr
+					}
+				}
+				if ok {
+					return "", ""
+				}
+				return fmt.Sprintf("args %v: expected stdout %q exit %d (Laufzeitfehler=%v), got stdout %q exit %d (%s) stderr %q", e.args, firstN(e.out.Stdout, 300), e.out.Exit, e.out.RtErr,
+						firstN(r.Stdout, 300), r.Exit, r.Class(), firstN(r.Stderr, 300)),
+					r.Stdout + "\n--- exit " + fmt.Sprint(r.Exit) + " stderr ---\n" + firstN(r.Stderr, 2000)
+			}
+			w, got := check()
+			if w == "" {
+				continue
+			}
+			if w2, _ := check(); w2 == "" {
+				c.Add("flaky_not_reported", 1)
+				continue
+			}
+			fail(cs, lvl, w, src+"\n[ args: "+strings.Join(e.args, " ")+" ]\n", e.out, got)
+			break // one failing vector per level is enough for the report
+		}
+		os.Remove(b.Exe)
+		os.Remove(b.Obj)
+	}
 }
 
 type badCase struct {
@@ -274,10 +366,13 @@ func runProgram(c *ev.Ctx, cs []*Case, tagged bool, o Opts, st *Stats, _ any) []
 			continue
 		}
 		n := 0
+		// a batch that ended abnormally (crash, runtime error, flood) makes every case after the
+		// point of failure a victim: such cases are only re-run alone, never reported as batch-only
+		abnormal := !okExit
 		for _, x := range cs {
 			g, present := gm[x.index]
 			if !present || g != em[x.index] {
-				bad = append(bad, badCase{false, x, lvl, fmt.Sprintf("expected %q got %q (present=%v)", firstN(em[x.index], 200), firstN(g, 200), present), src, got})
+				bad = append(bad, badCase{abnormal, x, lvl, fmt.Sprintf("expected %q got %q (present=%v)", firstN(em[x.index], 200), firstN(g, 200), present), src, got})
 				n++
 			}
 		}
@@ -317,7 +412,14 @@ func ReplayDir(dir string) (ok bool, msg string) {
 	if !b.OK {
 		return false, "compilation failed at stage " + b.Stage + ": " + firstN(b.Log, 1500)
 	}
-	r := rx.Run(b.Exe, rx.RunOpts{})
+	var args []string
+	if i := strings.LastIndex(string(src), "[ args: "); i >= 0 {
+		a := string(src)[i+len("[ args: "):]
+		if j := strings.Index(a, " ]"); j >= 0 {
+			args = strings.Fields(a[:j])
+		}
+	}
+	r := rx.Run(b.Exe, rx.RunOpts{Args: args})
 	if r.Stdout != string(exp) || r.Exit != exit {
 		return false, fmt.Sprintf("expected stdout %q exit %d, got %q exit %d (%s)", firstN(string(exp), 400), exit, firstN(r.Stdout, 400), r.Exit, r.Class())
 	}
